@@ -312,7 +312,7 @@ def interning(ctx):
         else:
             why = f'instance selected by `{tn}` while to_bytes emits {sorted(emitted)}'
     R.check(ok, rule, 'bumble.core.UUID.register', 'an existing instance is reused only when its uuid_bytes (what to_bytes emits) are identical', f'{why}: the width of a parsed UUID depends on what the process has seen before', p.loc(reg))
-    R.check('self.uuid_128_bytes == other.uuid_128_bytes' in norm(eq), rule, 'bumble.core.UUID.__eq__', 'equality is by 128-bit value (coarser than the byte form)', '__eq__ changed', p.loc(eq))
+    R.check('other.uuid_128_bytes == self.uuid_128_bytes' in norm(eq), rule, 'bumble.core.UUID.__eq__', 'equality is by 128-bit value (coarser than the byte form)', '__eq__ changed', p.loc(eq))
     fb = p.find('bumble.core.UUID.from_bytes')
     R.check(fb is not None and 'len(uuid_bytes) in (2, 4, 16)' in norm(fb) and 'self.uuid_bytes = uuid_bytes' in norm(fb), rule, 'bumble.core.UUID.from_bytes', 'keeps the given byte form (2, 4 or 16 bytes)', 'from_bytes no longer keeps the given byte form', p.loc(fb) if fb else '')
 
@@ -342,13 +342,18 @@ def sdp_tables(ctx):
                         ptab[k] = ('var', fmt[0] if fmt else 'B', adv[0] if adv else None)
     # serialise: size -> index
     stab = {}
+    from ..normalize import _negate
     for n in ast.walk(sb):
         if isinstance(n, ast.If):
-            t = norm(n.test)
-            idx = [const(a.value) for a in n.body if isinstance(a, ast.Assign) and dotted(a.targets[0]) == 'size_index' and is_const(a.value)]
-            sz = [norm(a.value) for a in n.body if isinstance(a, ast.Assign) and dotted(a.targets[0]) == 'size_bytes']
-            if idx and t.startswith('size'):
-                stab[idx[0]] = (t, sz[0] if sz else None)
+            arms = [(n.test, n.body)]
+            if n.orelse and not (len(n.orelse) == 1 and isinstance(n.orelse[0], ast.If)):
+                arms.append((_negate(n.test), n.orelse))   # the analyser's canonical form may have swapped the arms
+            for test, body in arms:
+                t = norm(test)
+                idx = [const(a.value) for a in body if isinstance(a, ast.Assign) and dotted(a.targets[0]) == 'size_index' and is_const(a.value)]
+                sz = [norm(a.value) for a in body if isinstance(a, ast.Assign) and dotted(a.targets[0]) == 'size_bytes']
+                if idx and t.startswith('size'):
+                    stab[idx[0]] = (t, sz[0] if sz else None)
     want_fixed = {0: 'size <= 1', 1: 'size == 2', 2: 'size == 4', 3: 'size == 8', 4: 'size == 16'}
     for k, cond in want_fixed.items():
         sizes = ptab.get(k, (None, []))[1]
